@@ -12,7 +12,7 @@ CHECKS["C16"] = dict(
     runs=dict(quick=40000, thorough=3000000),
     design_ref="DESIGN.md 4.2, 5 (C16)",
     technique="deterministic discrete-event simulation (seeded histories, stalls, re-entrant callbacks) checked against a reference scheduler",
-    level_text="seeded exploration of timer histories under a simulated clock (time bases int64, double with fractional deadlines, int32; clock resolution 1 .. 2^31 units per tick): every callback is validated against a "
+    level_text="seeded exploration of timer histories under a simulated clock (time bases int64, double with fractional deadlines, int32, uint32 as a wrapping counter with every start at or before now; clock resolution 1 .. 2^31 units per tick): every callback is validated against a "
                "reference scheduler at the moment it fires (never early, earliest first, completeness after exec, exact re-arm), "
                "failures are minimised and replay exactly; sampling, not proof",
     level_note="trusted: the reference scheduler in the harness, single caller thread, time non-decreasing, intervals >= 1",
@@ -22,7 +22,7 @@ CHECKS["C16"] = dict(
          "distinct = distinct FNV hash of the full event trace",
     simtime_units="simulated clock ticks",
     probes=["equal_deadlines", "catch_up_ge_10", "callback_unplanned_other", "callback_planned_overdue", "replan_self",
-            "callback_destroyed_other", "replan_linked", "time_origin_not_positive"],
+            "callback_destroyed_other", "replan_linked", "time_origin_not_positive", "wrapping_counter_time_base"],
     assumptions=["time passed to exec() is non-decreasing and intervals are >= 1 (the property's precondition)",
                  "single caller thread (thread schedules are C20's subject)",
                  "the reference scheduler in harness/C16_timers.cpp is the specification of 'due', 'earliest first' and 're-arm'"],
@@ -53,7 +53,7 @@ CHECKS["C20"] = dict(
          "optional spurious condvar wake-ups). non-trivial = at least one context switch happened while >= 2 threads were inside "
          "the API under test; distinct = distinct FNV hash of the synchronisation-event trace",
     simtime_units="scheduling decisions",
-    probes=["wake_raced_with_park", "nested_depth3", "save_restore_window", "queue_contended", "priority_waiter", "second_wait_queue"],
+    probes=["wake_raced_with_park", "nested_depth3", "save_restore_window", "queue_contended", "priority_waiter", "second_wait_queue", "delegate_woken_through_a_handler_set_while_parked"],
     assumptions=["pthread primitives behave as modelled in sim/thr/thrsim.cpp", "pop() is only called when an item is available (std::queue precondition)",
                  "bare-metal variants (semaphore.cpp, syslock_irqs.c) are not compiled on this platform and not simulated"],
 )
